@@ -6,7 +6,7 @@
    bounds the two agree, except at a near tie (two different decimals with the same rounding); in
    particular a value written like the bound has the bound's rounding, whatever the rounding is.
    What breaks the property is rounding the two sides DIFFERENTLY: PinnedK.v (seeded C08-5: bounds
-   at 53 bits, value at 64 bits; F32: value at float32, bound at float64). *)
+   at 53 bits, value at 64 bits; F33: value at float32, bound at float64). *)
 From Coq Require Import List ZArith Bool String Lia.
 From GZ Require Import C08.Model.
 Import ListNotations.
